@@ -177,7 +177,13 @@ pub fn siblings(r: &mut Rng, modifiers: bool) -> Vec<String> {
 pub fn rule_list(r: &mut Rng, n: usize, modifiers: bool) -> Vec<String> {
     let mut lines: Vec<String> = vec![];
     while lines.len() < n {
-        if r.chance(1, 4) {
+        if r.chance(1, 8) {
+            // a rule dispatched per source domain: no pattern token, several domains, one token group
+            // (and one bucket) per domain
+            let k = r.range(2, 3);
+            let ds: Vec<&str> = (0..k).map(|_| r.pick(DOMAINS)).collect();
+            lines.push(format!("{}${},domain={}", if r.chance(1, 4) { "@@" } else { "" }, r.pick(&["script", "image", "xhr", "third-party", "font"]), ds.join("|")));
+        } else if r.chance(1, 4) {
             lines.extend(siblings(r, modifiers));
         } else {
             lines.push(rule(r, modifiers));
